@@ -265,7 +265,7 @@ func normalizeForRun(srcs []Src) []Src {
 	for i, s := range srcs {
 		out[i] = s
 		switch s.K {
-		case "nonnum", "neg", "float", "overflow":
+		case "nonnum", "neg", "float", "overflow", "empty":
 			out[i] = absent
 		case "zero":
 			if i < 2 { // sizes: zero has no meaning; durations: zero is a documented value
@@ -277,7 +277,7 @@ func normalizeForRun(srcs []Src) []Src {
 }
 
 func crossSrc(r *rand.Rand, i int) Src {
-	ill := []Src{{K: "nonnum"}, {K: "neg"}, {K: "float"}, {K: "overflow"}}
+	ill := []Src{{K: "nonnum"}, {K: "neg"}, {K: "float"}, {K: "overflow"}, {K: "empty"}}
 	if i < 2 {
 		ill = append(ill, Src{K: "zero"})
 	}
